@@ -57,6 +57,9 @@ type C16Case struct {
 	FetchScr   map[string][]SOutcome `json:"fetch_script"`
 	Requests   []C16Req              `json:"ops"`
 	Shuffle    bool                  `json:"shuffle_replicas,omitempty"`
+	// Par: the requests are in flight at once on the one ingestor (their search stages interleave under the
+	// scheduler); each is judged afterwards against what the stores answered to it
+	Par bool `json:"par,omitempty"`
 	PSync      float64               `json:"p_sync"`
 	Schedule   []int                 `json:"schedule,omitempty"`
 }
@@ -141,6 +144,27 @@ type reqRecord struct {
 	// missing or reordered entry): only these may come back empty
 	excused   map[seq.ID]string
 	requested map[seq.ID]bool
+	// startNs: search calls each host had served when the request began
+	startNs map[string]int
+}
+
+func (r *c16Runner) newRec(stubs map[string]*c16Stub) *reqRecord {
+	rec := &reqRecord{searchAns: map[string]string{}, fetchAns: map[string]SOutcome{}, excused: map[seq.ID]string{}, requested: map[seq.ID]bool{}, startNs: map[string]int{}}
+	for h, st := range stubs {
+		rec.startNs[h] = st.ns
+	}
+	return rec
+}
+
+// healthyFrom: every search call the host serves from call number n+1 on is scripted to answer
+func (r *c16Runner) healthyFrom(h string, n int) bool {
+	sc := r.c.SearchScr[h]
+	for i := n; i < len(sc); i++ {
+		if sc[i].Kind != "ok" {
+			return false
+		}
+	}
+	return true
 }
 
 func (r *c16Runner) logf(f string, a ...any) {
@@ -399,8 +423,62 @@ func (r *c16Runner) script() {
 		}
 	}
 	ing := search.NewIngestor(search.Config{HotStores: hot, ReadStores: cold, WriteStores: cold, ShuffleReplicas: c.Shuffle}, clients)
+	if c.Par && len(c.Requests) > 1 {
+		type outcome struct {
+			rec  *reqRecord
+			qpr  *seq.QPR
+			docs search.DocsIterator
+			err  error
+			done bool
+		}
+		outs := make([]*outcome, len(c.Requests))
+		var tasks []*verifsim.Task
+		for qi, rq := range c.Requests {
+			qi, rq := qi, rq
+			o := &outcome{rec: r.newRec(stubs)}
+			outs[qi] = o
+			order := seq.DocsOrderDesc
+			if !rq.Desc {
+				order = seq.DocsOrderAsc
+			}
+			req := &search.SearchRequest{Q: []byte("k0:a"), Offset: rq.Offset, Size: rq.Size, From: 0, To: seq.MID(1) << 62, WithTotal: true, ShouldFetch: rq.Fetch, Order: order}
+			tasks = append(tasks, r.s.GoOn(nil, func() {
+				defer func() {
+					if p := recover(); p != nil {
+						r.res.Probes["proxy_panic_recovered"]++
+						o.err, o.done = fmt.Errorf("panic recovered by the interceptor: %v", p), true
+					}
+				}()
+				o.qpr, o.docs, _, o.err = ing.Search(context.WithValue(context.Background(), recKey{}, o.rec), req, querytracer.New(false, ""))
+				o.done = true
+			}))
+		}
+		for _, t := range tasks {
+			if res := r.s.WaitTask(t, nil, time.Hour); res != "done" {
+				r.violate("hang", "a concurrent request did not finish (%s)\n%s", res, r.s.DumpTasks())
+				return
+			}
+		}
+		r.res.Probes["concurrent_requests"] += len(outs)
+		for qi, o := range outs {
+			r.reqRecord = o.rec
+			r.logf("concurrent request %d offset=%d size=%d desc=%v fetch=%v", qi, c.Requests[qi].Offset, c.Requests[qi].Size, c.Requests[qi].Desc, c.Requests[qi].Fetch)
+			func() {
+				defer func() {
+					if p := recover(); p != nil {
+						r.res.Probes["proxy_panic_recovered"]++
+					}
+				}()
+				r.check(qi, c.Requests[qi], hot, cold, o.qpr, o.docs, o.err)
+			}()
+			if len(r.res.Violations) > 0 {
+				return
+			}
+		}
+		return
+	}
 	for qi, rq := range c.Requests {
-		r.reqRecord = &reqRecord{searchAns: map[string]string{}, fetchAns: map[string]SOutcome{}, excused: map[seq.ID]string{}, requested: map[seq.ID]bool{}}
+		r.reqRecord = r.newRec(stubs)
 		order := seq.DocsOrderDesc
 		if !rq.Desc {
 			order = seq.DocsOrderAsc
@@ -501,7 +579,6 @@ func (r *c16Runner) check(qi int, rq C16Req, hot, cold *stores.Stores, qpr *seq.
 		var cw, ct bool
 		answered, failed, cw, ct = r.tierAnswer(cold)
 		tier, tierCold = cold, true
-		_ = tier
 		tooMany = tooMany || ct
 		_ = cw
 	}
@@ -528,6 +605,31 @@ func (r *c16Runner) check(qi int, rq C16Req, hot, cold *stores.Stores, qpr *seq.
 	if len(failed) > 0 && !partial {
 		r.violate("silent_partial", "request %d: shards %v of the %s tier had no answering replica but the result is presented as complete (answered: %v; calls %v)", qi, failed, tierName(tierCold), answered, r.searchAns)
 		return
+	}
+	// a shard counts as failed only after its replicas were tried: a replica that was never asked and would
+	// have answered whenever asked means the shard did have an answering replica
+	if r.startNs != nil {
+		for _, si := range failed {
+			shortCut, cancelled := false, false
+			var untried []string
+			for _, h := range tier.Shards[si] {
+				switch k, called := r.searchAns[h]; {
+				case !called:
+					if r.healthyFrom(h, r.startNs[h]) {
+						untried = append(untried, h)
+					}
+				case k == "wants_old" || k == "too_many":
+					shortCut = true
+				case k == "cancelled":
+					cancelled = true
+				}
+			}
+			if len(untried) > 0 && !shortCut && !cancelled {
+				sort.Strings(untried)
+				r.violate("replica_not_tried", "request %d: shard %d of the %s tier is reported as not answering, but its replicas %v, scripted to answer every call, were never asked (calls of this request: %v)", qi, si, tierName(tierCold), untried, r.searchAns)
+				return
+			}
+		}
 	}
 	if len(failed) == 0 && partial {
 		r.violate("false_partial", "request %d: every shard answered but the result is flagged partial: %v", qi, err)
@@ -645,6 +747,7 @@ func GenC16(seed uint64, thorough bool) *C16Case {
 		c.ColdShards, c.ColdRepl = r.Range(1, 2), r.Range(1, 2)
 	}
 	c.Shuffle = r.Bool(0.3)
+	c.Par = r.Bool(0.2)
 	c.PSync = []float64{0, 0.1, 0.4}[r.Intn(3)]
 	n := r.Range(0, 30)
 	for i := 0; i < n; i++ {
